@@ -181,12 +181,16 @@ package core
 
 // public stream and the client proxy used by the HTTP server: what is sent carries the packet's round, signature and
 // previous signature unchanged and randomness = SHA-256(signature)
+// nfail(s): how many sends on the gRPC stream s have failed so far (ghost counter maintained by the contract of Send)
+//@ ghostfield nfail(ref) int
 //@ iface (github.com/drand/drand/v2/protobuf/drand.Public_PublicRandStreamServer).Send(s, r) (err)
-//@   trusted gRPC server stream: transmits the message it is given
-//@   modifies nothing
+//@   trusted gRPC server stream: transmits the message it is given or fails; a failure is counted
+//@   modifies nfail(s)
+//@   ensures (err != nil ==> nfail(s) == old(nfail(s)) + 1) && (err == nil ==> nfail(s) == old(nfail(s)))
 //@ func (*proxyStream).Send(p, b) (err)
 //@   props C01 C11
 //@   requires b != nil
+//@   ensures [C11:a-send-that-failed-on-the-public-stream-is-reported-as-a-failure] nfail(p.Public_PublicRandStreamServer) != old(nfail(p.Public_PublicRandStreamServer)) ==> err != nil
 //@   call Send#0: assert [C01,C11:public-stream-item-is-the-packet-with-randomness-sha256-of-its-signature] arg1 != nil && arg1.Round == b.Round && arg1.Signature == b.Signature && arg1.PreviousSignature == b.PreviousSignature && arg1.Randomness == digest(256, b.Signature)
 
 //@ iface (github.com/drand/drand/v2/protobuf/drand.PublicServer).PublicRand(s, ctx, in) (res, err)
